@@ -112,6 +112,21 @@ Proof.
     destruct (validate a) as [[]|e|s]; [congruence|exists e; split; reflexivity|exfalso; exact (P s eq_refl)].
 Qed.
 
+(* in one statement: accepted <-> object in {1,2,3,5,29} /\ index in 1..12 /\ channels in 1..7 *)
+Theorem c11_asc b0 b1 :
+  b0 < 256 -> b1 < 256 ->
+  let v := b0 * 256 + b1 in
+  let o := v / 2048 in let sr := (v / 128) mod 16 in let ch := (v / 8) mod 16 in
+  fst (asc_unmarshal asc0 [b0; b1]) = mk_asc o sr ch /\
+  (snd (asc_unmarshal asc0 [b0; b1]) = Ok tt <->
+     (o = 1 \/ o = 2 \/ o = 3 \/ o = 5 \/ o = 29) /\ 1 <= sr <= 12 /\ 1 <= ch <= 7) /\
+  (snd (asc_unmarshal asc0 [b0; b1]) = Ok tt -> asc_marshal (mk_asc o sr ch) = Ok [b0; (b1 / 8) * 8]).
+Proof.
+  intros H0 H1 v o sr ch.
+  destruct (c11_asc_unmarshal asc0 b0 b1 [] H0 H1) as (E & M & _). fold v o sr ch in E, M.
+  rewrite E. cbn [fst snd]. split; [reflexivity|]. split; [exact (c11_accepted (mk_asc o sr ch))|exact M].
+Qed.
+
 (* the same, evaluated by the kernel for each of the 65536 configs (acceptance, fields, error
    class, re-marshalled bytes; asc_check is defined in Proofs/Aac.v) *)
 Theorem c11_asc_sweep hi lo : hi < 256 -> lo < 256 -> asc_check hi lo = true.
@@ -210,6 +225,7 @@ Print Assumptions c11_frame_sync.
 Print Assumptions c11_stream.
 Print Assumptions c11_stream_step.
 Print Assumptions c11_asc_unmarshal.
+Print Assumptions c11_asc.
 Print Assumptions c11_asc_sweep.
 Print Assumptions c11_asc_short.
 Print Assumptions c11_asc_marshal.
